@@ -6,6 +6,7 @@ import (
 	"errors"
 	"fmt"
 	"reflect"
+	"strings"
 	"testing"
 	"unsafe"
 
@@ -104,6 +105,14 @@ func TestC08(t *testing.T) {
 			}
 			typ := reflect.TypeOf(d.XPtr).Elem()
 			vals := values(d.Type)
+			if exported {
+				switch typ.Kind() {
+				case reflect.Interface, reflect.Ptr, reflect.Map, reflect.Slice, reflect.Func, reflect.Chan:
+					// the untyped nil a user writes: Set(nil) / a callback returning nil makes the variable nil
+					// (by name the variable's type is taken from the value, so there this cannot be said)
+					vals = append(append([]interface{}{}, vals...), nil)
+				}
+			}
 			if !exported && typ.Kind() == reflect.Interface {
 				// UnExportedVar learns the variable's type from the value passed to Set, which for an interface-typed
 				// variable is the dynamic type: the variable's words are overwritten with the concrete representation.
@@ -142,6 +151,8 @@ func TestC08(t *testing.T) {
 							ok = false
 							key := "C08/step-panicked"
 							switch {
+							case strings.Contains(name, "<nil>") && exported:
+								key = "C08/set-nil-panics"
 							case !exported && len(name) > 5 && name[:5] == "Apply":
 								key = "C08/unexported-apply-panics"
 							case nset == 0 || len(hist) > 0 && noSetBefore(hist):
